@@ -257,7 +257,7 @@ func TestEnumerated(t *testing.T) {
 }
 
 func TestRandom(t *testing.T) {
-	ev.Check(t, "TestRandom", ev.PickN(1500, 160000), func(t *rapid.T) {
+	ev.Check(t, "TestRandom", ev.PickN(1500, 600000), func(t *rapid.T) {
 		c := hx.GenCreds(hx.Suites9()).Draw(t, "creds")
 		pl := payloadLens(c.Suite.Auth)
 		m := Mutation{Kind: rapid.SampledFrom([]string{"password", "kg", "flip", "flip", "flip", "status", "statusShort", "tag", "cutPayload", "cutRaw"}).Draw(t, "kind")}
